@@ -23,6 +23,9 @@ from pathlib import Path
 from vcore import Infra, canon, hexs, pyres
 
 FID = "C08-ecdsa-der-length-sniffing"
+FID_CERT_PSS = "C08-cert-validate-ignores-pss"
+FID_SP_PSS = "C08-sp-create-drops-pss"
+FID_RAW521 = "C08-cli-raw-private-p521"
 
 # NIST curve parameters (FIPS 186-4); used by the pure-Python verifier and to construct signatures with chosen (r, s) sizes
 CURVES = {
@@ -275,6 +278,14 @@ def privnum(k):
         pn = k.key.private_numbers()
         return f"rsa:{pn.public_numbers.n}:{pn.public_numbers.e}:{pn.d}:{pn.p}:{pn.q}:{pn.dmp1}:{pn.dmq1}:{pn.iqmp}"
     return "other:" + type(k).__name__
+
+
+def drv_false_or_model(drv, line):
+    """for ECC keys the padding flag is irrelevant to the signature: take the model's own answer for that part of the line"""
+    if drv is None:
+        return "false"
+    a = drv.ask(line)
+    return a.rsplit(";", 1)[-1] if a.startswith("ok:") else "false"
 
 
 def flip(data: bytes, bit: int) -> bytes:
@@ -1178,6 +1189,391 @@ def run(ck):
             rc = cli(*[bad_f if a == data_f else a for a in vargs])
             s2.expect("IS NOT matching" in rc[1], inp + ("changed data",), "nxpcrypto signature verify accepts changed data", rc)
     ck.extra["negative_checks"] = nneg
+    marks.append(("nxpcrypto_cli", time.time()))
+
+    # ================================================================== 7. certificate layer + utils.py attempt logic
+    s3 = ck.stream("cert_layer", "certificate chains of depth 1..4 over the run's keys (P-256/384/521, RSA-2048; RSA issuers sign v1.5 or PSS): correct order, "
+                   "one swap, a foreign certificate inserted, a non-CA intermediate, every chain prefix of length 0..1: validate_certificate_chain / "
+                   "validate / validate_subject / self_signed / ca / validate_ca_flag_in_cert_chain vs the model and vs cryptography called directly with "
+                   "the certificate's own algorithm; Certificate.parse on DER / PEM / NXP-padded / DER + 1..5 zero bytes / non-zero trailer / truncated / "
+                   "garbage vs the model; raw_size, public_key_hash; extract_public_key_from_data on certificate / private (+/- password, wrong "
+                   "password, password on an unencrypted key) / public (PEM, DER, NXP) / garbage: attempt order vs the model with the three decoders "
+                   "called directly; get_matching_key_id(_from_signature) with the match at every position; non-trivial = distinct input; cls = kind")
+    from cryptography import x509 as cx509
+    from spsdk.crypto.certificate import generate_extensions, validate_ca_flag_in_cert_chain, validate_certificate_chain
+    reqs = []
+    PSS_OID = cx509.oid.SignatureAlgorithmOID.RSASSA_PSS
+
+    def direct_valid(subject, issuer):
+        """signature of `subject` checked under `issuer`'s key by cryptography, with the algorithm the certificate names"""
+        c, ipk = subject.cert, issuer.cert.public_key()
+        try:
+            if isinstance(ipk, rsa.RSAPublicKey):
+                pad = (padding.PSS(mgf=padding.MGF1(c.signature_hash_algorithm), salt_length=padding.PSS.DIGEST_LENGTH)
+                       if c.signature_algorithm_oid == PSS_OID else padding.PKCS1v15())
+                ipk.verify(c.signature, c.tbs_certificate_bytes, pad, c.signature_hash_algorithm)
+            else:
+                ipk.verify(c.signature, c.tbs_certificate_bytes, ec.ECDSA(c.signature_hash_algorithm))
+            return True
+        except (InvalidSignature, ValueError, TypeError):
+            return False
+
+    def is_pss(cert):
+        return cert.cert.signature_algorithm_oid == PSS_OID
+
+    cert_desc = {}
+    chain_keys = [(ll, kk) for ll, kk in keys if ("/" not in ll or ll.endswith("gen")) and (isinstance(kk, PrivateKeyEcc) or kk.key_size == 2048)]
+    ncert = 0
+
+    def mk_cert(subject_cn, issuer_cn, subject_key, issuer_key, ca, pss=None):
+        nonlocal ncert
+        ncert += 1
+        ext = generate_extensions({"BASIC_CONSTRAINTS": {"ca": ca, "path_length": 3}}) if ca is not None else None
+        crt = Certificate.generate_certificate(generate_name([{"COMMON_NAME": subject_cn}]), generate_name([{"COMMON_NAME": issuer_cn}]),
+                                               subject_key.get_public_key(), issuer_key, 1000 + ncert, None, ext, pss)
+        cert_desc[hex(1000 + ncert)] = (f"{subject_cn}: key {privnum(subject_key)[:60]} signed by key {privnum(issuer_key)[:60]} "
+                                        f"{'RSASSA-PSS' if pss and isinstance(issuer_key, PrivateKeyRsa) else 'PKCS1v15' if isinstance(issuer_key, PrivateKeyRsa) else 'ECDSA'} ca={ca}")
+        return crt
+
+    def chain_check(chain, kind):
+        """chain = [leaf, ..., root]"""
+        n = len(chain)
+        inp = (kind, [cert_desc.get(hex(c.cert.serial_number), hex(c.cert.serial_number)) for c in chain])
+        s3.note(inp, cls=f"chain/{kind}/len{n}")
+        real = pyres(validate_certificate_chain, list(chain))
+        realc = "ok:" + "".join("1" if b else "0" for b in real[1]) if real[0] == "ok" else real[0]
+        # model with the validity relation the real code implements (validate = verify with pss_padding=False)
+        m_real = "".join("1" if pyres(chain[i].validate, chain[j]) == ("ok", True) else "0" for i in range(n) for j in range(n))
+        reqs.append((("validate_chain",) + inp, f"validate_chain {n} {m_real or '-'}", realc))
+        if n >= 2:
+            want = "".join("1" if direct_valid(chain[i], chain[i + 1]) else "0" for i in range(n - 1))
+            pss_involved = any(is_pss(chain[i]) for i in range(n - 1))
+            s3.expect(realc == "ok:" + want, inp, "validate_certificate_chain differs from checking every certificate under the next one's key with the "
+                      "certificate's own signature algorithm", realc, want, finding=FID_CERT_PSS if pss_involved else None)
+        else:
+            s3.expect(real[0] == "E:spsdk", inp, "a chain of fewer than two certificates is not refused with an SPSDK error", real)
+        if n >= 1:
+            r = pyres(validate_ca_flag_in_cert_chain, list(chain))
+            try:
+                want_ca = chain[0].cert.extensions.get_extension_for_class(cx509.BasicConstraints).value.ca
+            except cx509.ExtensionNotFound:
+                want_ca = False
+            s3.expect(r == ("ok", want_ca) and pyres(lambda: chain[0].ca) == ("ok", want_ca), inp, "ca flag differs from the BasicConstraints extension", r, want_ca)
+
+    for depth in range(1, 5):
+        for rep in range(ck.budget(3, 12)):
+            ks = [rng.choice(chain_keys) for _ in range(depth)]  # ks[0] = root ... ks[-1] = leaf
+            pss_flags = [rng.random() < 0.35 if isinstance(k, PrivateKeyRsa) else None for _, k in ks]
+            certs = []
+            for i, (ll, kk) in enumerate(ks):
+                issuer = ks[i - 1][1] if i else kk
+                non_ca_mid = depth >= 3 and i == 1 and rep % 3 == 2
+                ca = True if i < depth - 1 and not non_ca_mid else (None if i == depth - 1 and rep % 2 else False)
+                pss = pss_flags[i - 1] if i else pss_flags[0]
+                certs.append(mk_cert(f"c{depth}-{rep}-{i}", f"c{depth}-{rep}-{max(i - 1, 0)}", kk, issuer, ca, pss))
+            chain = certs[::-1]
+            chain_check(chain, "correct" if not (depth >= 3 and rep % 3 == 2) else "non-ca-intermediate")
+            for c_i, crt in enumerate(chain):
+                issuer = chain[c_i + 1] if c_i + 1 < len(chain) else crt
+                want = direct_valid(crt, issuer)
+                inp = ("validate", cert_desc.get(hex(crt.cert.serial_number)), "under", cert_desc.get(hex(issuer.cert.serial_number)))
+                s3.note(inp, cls="validate" + ("/pss" if is_pss(crt) else ""))
+                fnd = FID_CERT_PSS if is_pss(crt) else None
+                r1, r2 = pyres(crt.validate, issuer), pyres(issuer.validate_subject, crt)
+                s3.expect(r1 == ("ok", want) and r2 == ("ok", want), inp, "validate / validate_subject differ from cryptography checking the signature with the "
+                          "certificate's own algorithm", (r1, r2), want, finding=fnd)
+                if issuer is crt:
+                    s3.expect(pyres(lambda: crt.self_signed) == ("ok", want), inp + ("self_signed",), "self_signed differs", None, want, finding=fnd)
+                # model: the verify call is made with the model's pss flag
+                ipub = issuer.get_public_key()
+                alg = "ecdsa" if isinstance(ipub, PublicKeyEcc) else ("rsa_pss" if is_pss(crt) else "rsa_v15")
+                hname = crt.cert.signature_hash_algorithm.name
+                if drv is not None:
+                    mp = drv.ask(f"cert_call {alg}") == "ok:true"
+                    pred = pyres(ipub.verify_signature, crt.signature, crt.tbs_certificate_bytes, HASHES[hname][0], pss_padding=mp)
+                    s3.compare(("cert_call",) + inp, canon(r1), canon(pred), "Certificate.validate differs from verify_signature with the model's parameters")
+            if depth >= 2:
+                i, j = rng.sample(range(depth), 2)
+                sw = list(chain)
+                sw[i], sw[j] = sw[j], sw[i]
+                chain_check(sw, "swapped")
+                foreign = mk_cert("foreign", "foreign", ks[0][1], other_key(ks[0][0], ks[0][1]), True)
+                ins = list(chain)
+                ins.insert(rng.randrange(1, depth + 1), foreign)
+                chain_check(ins, "foreign-inserted")
+            chain_check(chain[:1], "single")
+            chain_check([], "empty") if rep == 0 else None
+            # ---- Certificate.parse / export on the leaf
+            crt = chain[0]
+            der = crt.cert.public_bytes(cser.Encoding.DER)
+            pem = crt.cert.public_bytes(cser.Encoding.PEM)
+            nxp = pyres(crt.export, SPSDKEncoding.NXP)
+            s3.note(("export", hex(crt.cert.serial_number)), cls="cert-export")
+            reqs.append((("cert_export_nxp", der), "cert_export_nxp " + hexs(der), f"ok:{nxp[1].hex()},{crt.raw_size}" if nxp[0] == "ok" else nxp[0]))
+            s3.expect(nxp[0] == "ok" and nxp[1][:len(der)] == der and len(nxp[1]) % 4 == 0 and len(nxp[1]) - len(der) < 4 and not any(nxp[1][len(der):])
+                      and crt.raw_size == len(nxp[1]), ("export", hex(crt.cert.serial_number)), "NXP export is not the DER form zero-padded to a multiple of 4", nxp)
+            pk = crt.get_public_key()
+            s3.expect(crt.public_key_hash() == hashlib.sha256(pk.export()).digest() and pubnum(pk) == crypto_pub(crt.cert.public_key()),
+                      ("pubkey", hex(crt.cert.serial_number)), "get_public_key / public_key_hash differ from the certificate's key")
+            variants = [("der", der), ("pem", pem), ("nxp", nxp[1] if nxp[0] == "ok" else der)] + [(f"zeros{k}", der + bytes(k)) for k in range(1, 6)] + [
+                ("nonzero-trailer", der + b"\x01"), ("zeros-then-nonzero", der + b"\x00\x00\x07"), ("truncated", der[:-1]), ("truncated-half", der[:len(der) // 2]),
+                ("garbage", bytes(rng.getrandbits(8) for _ in range(40))), ("empty", b""), ("pem-damaged", pem[:40] + b"!" + pem[41:]),
+                ("der-bitflip", flip(der, rng.randrange(8 * len(der))))]
+            for vname, data in variants:
+                inp = ("Certificate.parse", vname, hex(crt.cert.serial_number))
+                s3.note(inp, cls="cert-parse/" + vname.rstrip("0123456789"))
+                r = pyres(Certificate.parse, data)
+                realc = "ok:cert" if r[0] == "ok" else r[0]
+                # the loader's answers, obtained directly: length of the leading complete certificate (0 = none), PEM loadable?
+                L = 0
+                if len(data) >= 4 and data[0] == 0x30 and data[1] == 0x82:
+                    L0 = 4 + int.from_bytes(data[2:4], "big")
+                    if L0 <= len(data) and pyres(cx509.load_der_x509_certificate, data[:L0])[0] == "ok":
+                        L = L0
+                pem_ok = pyres(cx509.load_pem_x509_certificate, data)[0] == "ok"
+                reqs.append((inp + (data,), f"cert_parse {hexs(data)} {L} {int(pem_ok)}", realc))
+                if vname in ("der", "pem", "nxp") or vname.startswith("zeros") and not vname.endswith("nonzero"):
+                    ok = r[0] == "ok" and r[1].cert.public_bytes(cser.Encoding.DER) == der
+                    s3.expect(ok, inp, "the certificate does not survive export -> parse", r)
+                elif vname in ("nonzero-trailer", "zeros-then-nonzero", "truncated", "truncated-half", "garbage", "empty"):
+                    s3.expect(r[0] == "E:spsdk", inp, "damaged certificate data is not refused with an SPSDK error", r)
+    # ---- extract_public_key_from_data: attempt order
+    def tri(fn):
+        r = pyres(fn)
+        return ("ok:" + pubnum(r[1]) + ("+ca" if getattr(r[1], "ca", False) else "")) if r[0] == "ok" else ("spsdk" if r[0] == "E:spsdk" else "other")
+
+    def extract_case(data, password, kind):
+        inp = ("extract_public_key_from_data", kind, password, data)
+        s3.note(inp, cls="extract/" + kind)
+
+        def via_cert():
+            c = Certificate.parse(data)
+            k = c.get_public_key()
+            if c.ca:
+                setattr(k, "ca", True)
+            return k
+        t1, t2, t3 = tri(via_cert), tri(lambda: PrivateKey.parse(data, password=password if password else None).get_public_key()), tri(lambda: PublicKey.parse(data))
+        r = pyres(sutils.extract_public_key_from_data, data, password)
+        realc = ("ok:" + pubnum(r[1]) + ("+ca" if getattr(r[1], "ca", False) else "")) if r[0] == "ok" else r[0]
+        reqs.append((inp, f"first_accept {t1} {t2} {t3}", realc))
+        return realc
+
+    ex_keys = [(ll, kk) for ll, kk in keys if "/" not in ll or ll.endswith("gen")]
+    for label, k in ex_keys:
+        pub = k.get_public_key()
+        want = "ok:" + pubnum(pub)
+        for enc in ("pem", "der"):
+            got = extract_case(k.export(None, ENC[enc]), None, f"private-{enc}")
+            s3.expect(got == want, (label, "private", enc), "extract_public_key_from_data(private key) is not its public key", got, want)
+            encd = k.export("pw", ENC[enc])
+            s3.expect(extract_case(encd, "pw", f"private-{enc}-pw") == want, (label, "private-pw", enc), "extract_public_key_from_data(encrypted private key, password) fails")
+            s3.expect(extract_case(encd, None, f"private-{enc}-nopw") == "E:spsdk", (label, "private-nopw", enc), "an encrypted private key without password is not refused with an SPSDK error")
+            s3.expect(extract_case(encd, "bad", f"private-{enc}-badpw") == "E:spsdk", (label, "private-badpw", enc), "a wrong password is not refused with an SPSDK error")
+            extract_case(k.export(None, ENC[enc]), "pw", f"private-{enc}-password-on-plain")  # correspondence only (TypeError escapes)
+        for enc in ("pem", "der", "nxp"):
+            got = extract_case(pub.export(ENC[enc]), None, f"public-{enc}")
+            s3.expect(got == want, (label, "public", enc), "extract_public_key_from_data(public key) differs", got, want)
+            extract_case(pub.export(ENC[enc]), "pw", f"public-{enc}-with-password")
+        for ca in (True, False):
+            crt = mk_cert("x", "x", k, k, ca)
+            for enc in ("pem", "der", "nxp"):
+                got = extract_case(crt.export(ENC[enc]), None, f"cert-{enc}")
+                s3.expect(got == want + ("+ca" if ca else ""), (label, "cert", enc, ca), "extract_public_key_from_data(certificate) differs (key or ca mark)", got, want)
+    for _ in range(ck.budget(10, 60)):
+        extract_case(bytes(rng.getrandbits(8) for _ in range(rng.choice([0, 1, 31, 32, 64, 96, 100, 132, 259, 300]))), rng.choice([None, "pw"]), "garbage")
+    # ---- get_matching_key_id / get_matching_key_id_from_signature: the match at every position, twice, nowhere
+    pool = [kk for ll, kk in keys if isinstance(kk, PrivateKeyEcc)][:6]
+    for label, k in ex_keys:
+        fpath = scratch / f"mk{abs(hash(label)) % 10 ** 8}.pem"
+        k.save(str(fpath))
+        sp = PlainFileSP(str(fpath))
+        pub = k.get_public_key()
+        sig = k.sign(b"match me")
+        for pos in list(range(0, 5)) + [None, "twice"]:
+            lst = [o.get_public_key() for o in pool[:4] if o is not k]
+            if pos == "twice":
+                lst.insert(1, pub)
+                lst.append(pub)
+            elif pos is not None:
+                lst.insert(min(pos, len(lst)), pub)
+            bits = "".join("1" if pubnum(x) == pubnum(pub) else "0" for x in lst) or "-"
+            inp = (label, "matching", bits)
+            s3.note(inp, cls="matching-key-id")
+            r1 = pyres(sutils.get_matching_key_id, lst, sp)
+            r2 = pyres(sutils.get_matching_key_id_from_signature, lst, b"match me", sig)
+            reqs.append((inp + ("sp",), f"matching_key {bits}", canon(r1)))
+            reqs.append((inp + ("sig",), f"matching_key {bits}", canon(r2)))
+            want = ("ok", bits.index("1")) if "1" in bits else ("E:spsdk",)
+            s3.expect(r1 == want and r2 == want, inp, "the index of the first matching key is not returned (or no match is not an SPSDK error)", (r1, r2), want)
+    corr(s3, reqs)
+    marks.append(("cert_layer", time.time()))
+
+    # ================================================================== 8. signature provider plumbing
+    s4 = ck.stream("sigprovider_plumbing", "key files of every type (P-256/384/521, RSA 2048 + tests' 3072/4096): SignatureProvider.create / get_signature_provider "
+                   "with pss_padding absent / True / False / 'True' / 'False' (dict, cfg string, kwargs, local_file_key), extra keywords, hash_alg: surviving "
+                   "sign keywords and the padding actually used vs the model and vs the request; signature_length = len(get_signature) = model; "
+                   "verify_public_key / try_to_verify_public_key (object, PEM, DER, NXP bytes; other key refused); get_hash_type_from_signature_size and "
+                   "get_ecc_curve for every size 0..200; non-trivial = distinct input; cls = kind")
+    from spsdk.crypto.keys import get_ecc_curve as key_len_curve
+    from spsdk.crypto.signature_provider import InteractivePlainFileSP, get_signature_provider
+    reqs = []
+    sp_keys = [(ll, kk) for ll, kk in keys if "/" not in ll or ll.endswith("gen") or ll.startswith("rsa-file")]
+
+    def pv(v):
+        return ("b:1" if v else "b:0") if isinstance(v, bool) else "s:" + str(v)
+
+    for label, k in sp_keys:
+        is_rsa = isinstance(k, PrivateKeyRsa)
+        pub = k.get_public_key()
+        fpath = str(scratch / f"sp{abs(hash(label)) % 10 ** 8}b.pem")
+        k.save(fpath)
+        msg = b"plumbing " + label.encode()
+
+        def padding_used(sp):
+            g = pyres(sp.get_signature, msg)
+            if g[0] != "ok":
+                return g, None
+            if not is_rsa:
+                return g, ("ecdsa" if pub.verify_signature(g[1], msg) else "??")
+            return g, ("pss" if pub.verify_signature(g[1], msg, pss_padding=True) else "v15" if pub.verify_signature(g[1], msg) else "??")
+        for pss in (None, True, False, "True", "False", ""):
+            for extra in ({}, {"foo": "bar"}, {"search_paths": "x"}):
+                params = {"type": "file", "file_path": fpath, **({"pss_padding": pss} if pss is not None else {}), **extra}
+                inp = (label, "create", {kk2: repr(vv) for kk2, vv in params.items() if kk2 != "file_path"})
+                s4.note(inp, cls="create" + ("/rsa" if is_rsa else "/ecc"))
+                r = pyres(SignatureProvider.create, dict(params))
+                if not s4.expect(r[0] == "ok" and isinstance(r[1], PlainFileSP), inp, "SignatureProvider.create fails for a file provider", r):
+                    continue
+                g, used = padding_used(r[1])
+                kw = ",".join(f"{a}={pv(b)}" for a, b in r[1].sign_kwargs.items())
+                line = "sp_create " + " ".join(f"{a}={pv(b)}" for a, b in params.items() if a != "file_path") + " file_path=s:f"
+                reqs.append((inp, line, f"ok:{kw};{'true' if used == 'pss' else 'false'}" if is_rsa else f"ok:{kw};" + drv_false_or_model(drv, line)))
+                s4.expect(used in ("pss", "v15", "ecdsa"), inp, "the provider's signature does not verify under the key's public key", g)
+                if is_rsa:
+                    want = "pss" if pss else "v15"
+                    s4.expect(used == want, inp, "a provider created with pss_padding=<truthy> does not sign with PSS (or the reverse)", used, want,
+                              finding=FID_SP_PSS if (pss and used == "v15") else None)
+        for pss in (None, True, False):
+            kwargs = {} if pss is None else {"pss_padding": pss}
+            for how in ("cfg+kwargs", "local_file_key"):
+                inp = (label, how, repr(pss))
+                s4.note(inp, cls=how + ("/rsa" if is_rsa else "/ecc"))
+                if how == "cfg+kwargs":
+                    r = pyres(get_signature_provider, sp_cfg=f"type=file;file_path={fpath}", **kwargs)
+                    line = "sp_create type=s:file file_path=s:f " + " ".join(f"{a}={pv(b)}" for a, b in kwargs.items())
+                else:
+                    r = pyres(get_signature_provider, local_file_key=fpath, **kwargs)
+                    line = "sp_local " + " ".join(f"{a}={pv(b)}" for a, b in kwargs.items())
+                if not s4.expect(r[0] == "ok", inp, "get_signature_provider fails", r):
+                    continue
+                g, used = padding_used(r[1])
+                if is_rsa and drv is not None:
+                    m = drv.ask(line)
+                    model_pss = m.endswith("true")
+                    s4.compare(inp, "pss" if used == "pss" else "v15", "pss" if model_pss else "v15", "padding used differs from the model of the parameter plumbing")
+                    want = "pss" if pss else "v15"
+                    s4.expect(used == want, inp, "a provider created with pss_padding=<truthy> does not sign with PSS (or the reverse)", used, want,
+                              finding=FID_SP_PSS if (pss and used == "v15" and how == "cfg+kwargs") else None)
+                # signature_length = actual length = model
+                sl = pyres(lambda: r[1].signature_length)
+                want_len = len(g[1]) if g[0] == "ok" else None
+                mline = f"sig_len rsa {k.key_size}" if is_rsa else f"sig_len ecc {k.curve.value}"
+                reqs.append((inp + ("signature_length",), mline, canon(sl)))
+                s4.expect(sl == ("ok", want_len) and want_len == k.signature_size == pub.signature_size, inp, "signature_length differs from the length of the signature returned", sl, want_len)
+        # verify_public_key / try_to_verify_public_key
+        sp = PlainFileSP(fpath)
+        o = other_key(label, k).get_public_key()
+        s4.note((label, "verify_public_key"), cls="verify_public_key")
+        s4.expect(pyres(sp.verify_public_key, pub) == ("ok", True) and pyres(sp.verify_public_key, o) == ("ok", False), (label, "verify_public_key"), "verify_public_key wrong")
+        for enc in ("pem", "der", "nxp"):
+            r1 = pyres(sp.try_to_verify_public_key, pub.export(ENC[enc]))
+            r2 = pyres(sp.try_to_verify_public_key, o.export(ENC[enc]))
+            s4.expect(r1 == ("ok", None) and r2[0] == "E:spsdk", (label, "try_to_verify_public_key", enc), "try_to_verify_public_key(bytes) accepts another key or refuses its own", (r1, r2))
+        # interactive provider with an encrypted key and an explicit password
+        ef = str(scratch / f"sp{abs(hash(label)) % 10 ** 8}e.pem")
+        k.save(ef, "pw")
+        r = pyres(lambda: InteractivePlainFileSP(ef, password="pw").get_signature(msg))
+        s4.expect(r[0] == "ok" and pub.verify_signature(r[1], msg), (label, "interactive+password"), "provider over an encrypted key file does not sign", r)
+    for n0 in range(0, 201):
+        s4.note(("sizes", n0), nontrivial=False, cls="size-tables")
+        reqs.append((("hash_from_sig_size", n0), f"hash_from_sig_size {n0}", canon(pyres(lambda: sutils.get_hash_type_from_signature_size(n0).label.lower()))))
+        reqs.append((("key_len_curve", n0), f"key_len_curve {n0}", canon(pyres(lambda: key_len_curve(n0).value))))
+    corr(s4, reqs)
+    marks.append(("sigprovider_plumbing", time.time()))
+
+    # ================================================================== 9. raw key files of the CLI
+    s5 = ck.stream("cli_raw_keys", "nxpcrypto key convert -e RAW of private and public ECC keys (every curve; d with leading zero / marker bytes) -> key convert -e PEM "
+                   "from the raw file -> same key; reconstruct_key on raw scalars, raw points, PEM/DER keys and random blobs of every length 0..140 vs the "
+                   "model (PrivateKey.parse / PublicKey.parse called directly as the first two attempts); non-trivial = distinct input; cls = kind")
+    from spsdk.apps.nxpcrypto import reconstruct_key as rk
+    reqs = []
+
+    def anykey(r):
+        if r[0] != "ok":
+            return "spsdk" if r[0] == "E:spsdk" else "other"
+        k0 = r[1]
+        return "ok:" + (f"priv:{k0.curve.value}:{k0.d}" if isinstance(k0, PrivateKeyEcc) else f"pub:{k0.curve.value}:{k0.x}:{k0.y}" if isinstance(k0, PublicKeyEcc)
+                        else "rsa-private" if isinstance(k0, PrivateKeyRsa) else "rsa-public:" + pubnum(k0))
+
+    def rk_case(data, kind):
+        s5.note((kind, data), cls="reconstruct/" + kind)
+        t1, t2 = anykey(pyres(PrivateKey.parse, data)), anykey(pyres(PublicKey.parse, data))
+        L = len(data)
+        cv = {True: None}.get(False)
+        pk_ok, oc_ok = "0", "0"
+        cname = pyres(lambda: key_len_curve(L).value)
+        if cname[0] == "ok":
+            cobj = KeyEccCommon._get_ec_curve_object(EccCurve(cname[1]))
+            if L <= 48:
+                pk_ok = "1" if pyres(ec.derive_private_key, int.from_bytes(data, "big"), cobj)[0] == "ok" else "0"
+            elif L in (64, 96):
+                x, y = int.from_bytes(data[:L // 2], "big"), int.from_bytes(data[L // 2:], "big")
+                oc_ok = "1" if pyres(lambda: ec.EllipticCurvePublicNumbers(x, y, cobj).public_key())[0] == "ok" else "0"
+        real = anykey(pyres(rk, data))
+        real = real if real.startswith("ok:") else ("E:spsdk" if real == "spsdk" else "E:other")
+        reqs.append(((kind, data), f"reconstruct_key {t1} {t2} {hexs(data)} {pk_ok} {oc_ok}", real))
+        return real
+
+    for n_k, (label, k) in enumerate([(ll, kk) for ll, kk in keys if isinstance(kk, PrivateKeyEcc) and ("/" not in ll or ll.endswith(("lzx", "d=1", "d=n-1")) or not ck.quick)]):
+        curve, cl = k.curve.value, CURVES[k.curve.value]["cl"]
+        d0 = scratch / f"raw{n_k}"
+        d0.mkdir(exist_ok=True)
+        prk, rawf, backf, praw, pback = (str(d0 / n0) for n0 in ("prk.pem", "d.bin", "back.pem", "p.bin", "pback.pem"))
+        k.save(prk)
+        inp = (label, "RAW private", {"curve": curve, "private_value": k.d})
+        s5.note(inp, cls=f"cli-raw-private/{curve}")
+        rc = cli("key", "convert", "-e", "RAW", "-i", prk, "-o", rawf)
+        if s5.expect(rc[0] == 0 and os.path.exists(rawf), inp, "nxpcrypto key convert -e RAW (private) fails", rc):
+            raw = Path(rawf).read_bytes()
+            s5.expect(raw == k.d.to_bytes(cl, "big"), inp, "raw private key file is not d on coordinate-size bytes", raw.hex())
+            rc2 = cli("key", "convert", "-e", "PEM", "-i", rawf, "-o", backf)
+            back = pyres(PrivateKey.load, backf) if rc2[0] == 0 and os.path.exists(backf) else ("cli-exit", rc2[0])
+            s5.expect(back[0] == "ok" and privnum(back[1]) == privnum(k), inp, "the raw private key written by the CLI is not read back by the CLI to the same key",
+                      back if back[0] != "ok" else "different key", None, finding=FID_RAW521 if curve == "secp521r1" else None)
+            got = rk_case(raw, "raw-private")
+            s5.expect(got == f"ok:priv:{curve}:{k.d}", inp + ("reconstruct_key",), "reconstruct_key does not recover the raw private scalar", got, None,
+                      finding=FID_RAW521 if curve == "secp521r1" else None)
+        inp = (label, "RAW public", {"curve": curve, "private_value": k.d})
+        s5.note(inp, cls=f"cli-raw-public/{curve}")
+        rc = cli("key", "convert", "-e", "RAW", "--puk", "-i", prk, "-o", praw)
+        if s5.expect(rc[0] == 0 and os.path.exists(praw), inp, "nxpcrypto key convert -e RAW --puk fails", rc):
+            rc2 = cli("key", "convert", "-e", "PEM", "-i", praw, "-o", pback)
+            back = pyres(PublicKey.load, pback) if rc2[0] == 0 and os.path.exists(pback) else ("cli-exit", rc2[0])
+            s5.expect(back[0] == "ok" and pubnum(back[1]) == pubnum(k.get_public_key()), inp, "the raw public key written by the CLI is not read back by the CLI", back)
+            rk_case(Path(praw).read_bytes(), "raw-public")
+        rk_case(k.export(None, SPSDKEncoding.PEM), "pem-private")
+        rk_case(k.get_public_key().export(SPSDKEncoding.DER), "der-public")
+    for L in range(0, 141):
+        for _ in range(ck.budget(1, 4)):
+            rk_case(bytes(rng.getrandbits(8) for _ in range(L)), "blob")
+    for width, cvn in ((32, "secp256r1"), (48, "secp384r1"), (66, "secp521r1"), (20, "secp256r1"), (40, "secp384r1")):
+        nn = CURVES[cvn]["n"]
+        for dv in (0, 1, nn - 1, nn, nn + 1, 2 ** (8 * width) - 1):
+            if dv < 2 ** (8 * width):
+                rk_case(dv.to_bytes(width, "big"), "scalar-boundary")
+    corr(s5, reqs)
+    marks.append(("cli_raw_keys", time.time()))
+
     # correspondence for verify_signature: SPSDK's answer = "the backend accepts one of the model's candidate encodings"
     if drv is not None and vreqs:
         answers = drv.batch([f"verify_cands {curve} {hexs(sig)}" for (_i, curve, sig, *_r) in vreqs])
@@ -1199,7 +1595,7 @@ def run(ck):
             s.note(("verify-junk", j), nontrivial=False, cls="junk")
             s.compare(("verify-junk", j), canon(real), canon(("ok", model)))
             s.expect(real == ("ok", False), ("verify-junk", j), "a damaged signature verifies or raises", real, False)
-    marks.append(("nxpcrypto_cli+verify_correspondence", time.time()))
+    marks.append(("verify_correspondence", time.time()))
     ck.extra["timing_s"] = {marks[i][0]: round(marks[i][1] - marks[i - 1][1], 2) for i in range(1, len(marks))}
 
 
